@@ -54,7 +54,7 @@ type lkSc struct {
 	K        int      `json:"k"`
 	Alpha    int      `json:"alpha"`
 	Beta     int      `json:"beta"`
-	KeyKind  int      `json:"key_kind,omitempty"` // 0: multihash from the key pool; 2: value key "/v/k<Key>"; 3: public-key key; 4: identity multihash; 5: SHA-1 multihash
+	KeyKind  int      `json:"key_kind,omitempty"` // 0: multihash from the key pool; 2: value key "/v/k<Key>"; 3: public-key key; 4: identity multihash; 5: SHA-1 multihash; 6: raw 32-byte key; 7: short key
 	Key      int      `json:"key"`                // key pool index
 	KeyPeer  int      `json:"key_peer,omitempty"` // >0: the key is the id of Peers[KeyPeer-1] (FindPeer-style target)
 	Self     int      `json:"self"`               // peer pool index of the local node
@@ -104,6 +104,14 @@ func (s *lkSc) keyString() string {
 	}
 	if s.KeyKind == 2 {
 		return fmt.Sprintf("/v/k%d", s.Key)
+	}
+	if s.KeyKind == 6 {
+		// a raw 32-byte key (as long as a keyspace id, but a key like any other: it is hashed)
+		h := sha256.Sum256([]byte(fmt.Sprintf("raw-key-%d", s.Key)))
+		return string(h[:])
+	}
+	if s.KeyKind == 7 {
+		return fmt.Sprintf("k%d", s.Key) // a short key
 	}
 	if s.KeyKind == 4 || s.KeyKind == 5 {
 		// multihashes of other functions than SHA-256: the identity function (the "hash" is the data, as in inlined CIDs) and SHA-1
